@@ -418,7 +418,7 @@ fn main() {
     run.rule(
         "the six test functions of tests/recall.rs (fresh Euclidean 1000x32, fresh Cosine 800x24, 20% deletions, heavy deletions with \
          reconnect_on_delete, 5 rounds of delete/re-insert churn, flush+load round trip) with their data seeds, sizes and floors, each run \
-         once per declared layer seed (quick: 1-2, thorough: 1-16); recall@10 vs exact brute force with the file's epsilon tie rule; \
+         once per declared layer seed (quick: seeds 1-2, thorough: 1-16; the crash-prefix sweep: quick seed 1 only, thorough all 16); recall@10 vs exact brute force with the file's epsilon tie rule; \
          persistence_crash: documents 1..536 flushed to completion, 537..600 inserted, the next flush journalled, EVERY prefix of that \
          journal (nodes, ids, metadata) loaded, the 64 unflushed documents re-inserted (AlreadyExists ignored), average recall >= 0.95 - \
          0.05; prefixes past the commit record additionally >= 0.95 without re-index; evaluations = queries scored against brute force; \
